@@ -1,6 +1,7 @@
 package props
 
 import (
+	"errors"
 	"fmt"
 	"sort"
 	"strings"
@@ -611,6 +612,8 @@ func genC09(t *rapid.T) c09Case {
 	return c
 }
 
+var errInTxSkip = errors.New("in-transaction re-run not applicable")
+
 type report struct {
 	text  string
 	fixed bool
@@ -684,6 +687,42 @@ func runC09(c c09Case) kit.Result {
 			parts = append(parts, "    "+co.String())
 		}
 		return "corruptions:\n" + strings.Join(parts, "\n") + "\nhistory:\n" + c.H.String()
+	}
+	// a consistent database is consistent at every point of a transaction as well: the last transaction of the
+	// history is executed once more inside a transaction that then runs the check before committing (entries
+	// written in this very transaction are looked at through the transaction's dirty pages)
+	if n := len(c.H.Txs); n > 0 {
+		var inTx []report
+		trial := m.Clone()
+		err := w.Z.Db.Update(kit.NewCtx(), func(ctx boltz.MutateContext) error {
+			for _, op := range c.H.Txs[n-1].Ops {
+				if causes := trial.Apply(op, false); len(causes) > 0 {
+					return errInTxSkip // the re-run is not applicable (e.g. create of an id that exists now)
+				}
+				if _, err := w.Exec(ctx, op); err != nil {
+					return fmt.Errorf("re-running %s, accepted by the model: %v", op, err)
+				}
+			}
+			for _, name := range sortedKeys(w.Stores) {
+				if err := w.Stores[name].CheckIntegrity(ctx, false, func(err error, fixed bool) { inTx = append(inTx, report{err.Error(), fixed}) }); err != nil {
+					return err
+				}
+			}
+			return nil
+		})
+		switch {
+		case errors.Is(err, errInTxSkip):
+		case err != nil:
+			res.Err = fmt.Errorf("check inside the writing transaction: %v\nhistory:\n%s", err, c.H)
+			return res
+		default:
+			*m = *trial
+			res.Classes = append(res.Classes, "checked-inside-the-writing-transaction")
+			if len(inTx) > 0 {
+				res.Err = fmt.Errorf("consistent database, check-only run inside the transaction that wrote the last changes reported:\n%s\nhistory:\n%s", renderReports(inTx), c.H)
+				return res
+			}
+		}
 	}
 	// a consistent database: nothing to report, nothing changed, in either mode
 	clean := kit.DropEmptyEntityBuckets(w.Dump())
@@ -851,6 +890,27 @@ func runC09(c c09Case) kit.Result {
 		if err := w.CheckAll(m); err != nil {
 			res.Err = fmt.Errorf("after the fix run: %v\n%s", err, describe())
 			return res
+		}
+		// the same store objects keep being used: an id that dangled a moment ago is now created and linked through
+		// the API; the next check has nothing to report (each run looks at the database as it is now)
+		for _, co := range c.Corruptions {
+			if co.Kind != "link-dangling" {
+				continue
+			}
+			tx := kit.TxSpec{Ops: []kit.Op{
+				{Kind: "create", Store: "targets", ID: co.Other, Spec: &kit.EntSpec{Name: "late-" + co.Other}},
+				{Kind: "addlinks", Store: "things", Field: "tlinks", ID: co.ID, Keys: []string{co.Other}}}}
+			if out := kit.RunTx(w, m, tx); out.Violation != nil || !out.Committed {
+				res.Err = fmt.Errorf("after the fix run, creating and linking the formerly dangling id %q: committed=%v %v\n%s", co.Other, out.Committed, out.Violation, describe())
+				return res
+			}
+			reps3, err := runIntegrity(w, false)
+			if err != nil || len(reps3) > 0 {
+				res.Err = fmt.Errorf("after the formerly dangling id %q was created and linked through the API, a check-only run reports (err %v):\n%s\n%s", co.Other, err, renderReports(reps3), describe())
+				return res
+			}
+			res.Classes = append(res.Classes, "formerly-dangling-id-created-later")
+			break
 		}
 	}
 	return res
